@@ -1,3 +1,217 @@
-import Ruint.Model.BitsRev
+import Ruint.Lemmas.BitsRev
+
+/-!
+# C06 — bitwise logic, bit access and bit counting agree with the binary expansion
+
+Property theorems only (helper lemmas live in `Lemmas/Bits.lean`, `Lemmas/BitsRev.lean`). Every theorem
+quantifies over **all** widths `bits` (including 0, 1 and non-multiples of 64), all canonical values and
+all indices. The binary expansion is `Nat.testBit (val a)`; `size x` is the number of significant bits
+(`0` for `0`, else `⌊log₂ x⌋ + 1`); `bitCount n A` counts the set bits among positions `0..n-1`.
+The model functions (`Ruint.Bits.*`, files `Model/Bits.lean`, `Model/BitsRev.lean`) are the ones the
+correspondence driver executes against the real `Uint` methods and operators. The word primitives
+(`clz64`, `ctz64`, `cto64`, `popcnt64`, `rev64`, `wnot`) have their own specs in `Lemmas/Bits.lean`
+(`clz64_spec`, `ctz64_spec`, `popAux_eq_bitCount`, `rev64_testBit`); that the Rust `u64` intrinsics
+match them is trusted and exercised by the correspondence.
+-/
 namespace Ruint.C06
+open Ruint Ruint.Bits
+
+/-- `!a` (method and both operator forms): canonical, value `2^bits − 1 − a`, i.e. exactly the low
+    `bits` bits are inverted. -/
+theorem not_spec (bits : ℕ) (a : List ℕ) (ha : Canon bits a) :
+    Canon bits (Bits.not bits a)
+    ∧ val (Bits.not bits a) = 2 ^ bits - 1 - val a
+    ∧ ∀ i, (val (Bits.not bits a)).testBit i = (decide (i < bits) && !(val a).testBit i) := by
+  obtain ⟨h1, h2⟩ := not_val bits a ha
+  exact ⟨h1, h2, fun i => by rw [h2, testBit_not bits (val a) i ha.val_lt]⟩
+
+/-- `&` (all six operator shapes): canonical, bit-by-bit conjunction. -/
+theorem bitand_spec (bits : ℕ) (a b : List ℕ) (ha : Canon bits a) (hb : Canon bits b) :
+    Canon bits (bitAnd a b)
+    ∧ ∀ i, (val (bitAnd a b)).testBit i = ((val a).testBit i && (val b).testBit i) := by
+  obtain ⟨h1, h2, h3⟩ := bitAnd_spec a b (by rw [ha.1, hb.1]) ha.2.1 hb.2.1
+  refine ⟨⟨by rw [h2, ha.1], h3, ?_⟩, fun i => by rw [h1, Nat.testBit_and]⟩
+  rw [h1]
+  exact lt_of_le_of_lt Nat.and_le_left ha.val_lt
+
+/-- `|` (all six operator shapes): canonical, bit-by-bit disjunction. -/
+theorem bitor_spec (bits : ℕ) (a b : List ℕ) (ha : Canon bits a) (hb : Canon bits b) :
+    Canon bits (bitOr a b)
+    ∧ ∀ i, (val (bitOr a b)).testBit i = ((val a).testBit i || (val b).testBit i) := by
+  obtain ⟨h1, h2, h3⟩ := bitOr_spec a b (by rw [ha.1, hb.1]) ha.2.1 hb.2.1
+  refine ⟨⟨by rw [h2, ha.1], h3, ?_⟩, fun i => by rw [h1, Nat.testBit_or]⟩
+  rw [h1]
+  exact Nat.or_lt_two_pow ha.val_lt hb.val_lt
+
+/-- `^` (all six operator shapes): canonical, bit-by-bit exclusive or. -/
+theorem bitxor_spec (bits : ℕ) (a b : List ℕ) (ha : Canon bits a) (hb : Canon bits b) :
+    Canon bits (bitXor a b)
+    ∧ ∀ i, (val (bitXor a b)).testBit i = ((val a).testBit i ^^ (val b).testBit i) := by
+  obtain ⟨h1, h2, h3⟩ := bitXor_spec a b (by rw [ha.1, hb.1]) ha.2.1 hb.2.1
+  refine ⟨⟨by rw [h2, ha.1], h3, ?_⟩, fun i => by rw [h1, Nat.testBit_xor]⟩
+  rw [h1]
+  exact Nat.xor_lt_two_pow ha.val_lt hb.val_lt
+
+/-- `bit(i)` reads exactly bit `i`; an index `≥ bits` reads `false`. -/
+theorem bit_spec (bits : ℕ) (a : List ℕ) (i : ℕ) (ha : Canon bits a) :
+    bit bits a i = (decide (i < bits) && (val a).testBit i) :=
+  Bits.bit_spec bits a ha.2.1 i
+
+/-- `set_bit(i, v)` writes exactly bit `i`; an index `≥ bits` writes nothing. -/
+theorem set_bit_spec (bits : ℕ) (a : List ℕ) (i : ℕ) (v : Bool) (ha : Canon bits a) :
+    Canon bits (setBit bits a i v)
+    ∧ ∀ j, (val (setBit bits a i v)).testBit j
+        = if j = i ∧ i < bits then v else (val a).testBit j :=
+  setBit_spec bits a i v ha
+
+/-- `byte(i)` is byte `i` of the value (`⌊a / 256^i⌋ mod 256`) and panics (`none`) exactly for
+    `i ≥ BYTES = ⌈bits/8⌉`. -/
+theorem byte_spec (bits : ℕ) (a : List ℕ) (i : ℕ) (ha : Canon bits a) :
+    (i < (bits + 7) / 8 → byte bits a i = some (val a / 256 ^ i % 256))
+    ∧ ((bits + 7) / 8 ≤ i → byte bits a i = none) := by
+  unfold byte nbytes
+  constructor
+  · intro h; rw [if_pos h, byte_val a ha.2.1]
+  · intro h; rw [if_neg (by omega)]
+
+/-- `checked_byte(i)` is `Some(byte i)` for `i < BYTES` and `None` otherwise. -/
+theorem checked_byte_spec (bits : ℕ) (a : List ℕ) (i : ℕ) (ha : Canon bits a) :
+    (i < (bits + 7) / 8 → checkedByte bits a i = some (val a / 256 ^ i % 256))
+    ∧ ((bits + 7) / 8 ≤ i → checkedByte bits a i = none) := by
+  unfold checkedByte nbytes
+  constructor
+  · intro h; rw [if_pos h]; exact (byte_spec bits a i ha).1 h
+  · intro h; rw [if_neg (by omega)]
+
+/-- `leading_zeros = bits − (number of significant bits)` (includes the `MASK.leading_zeros()`
+    correction at non-aligned widths and the all-zero case). -/
+theorem leading_zeros_spec (bits : ℕ) (a : List ℕ) (ha : Canon bits a) :
+    leadingZeros bits a = bits - size (val a) :=
+  leadingZeros_spec bits a ha
+
+/-- `bit_len` is the number of significant bits: `a < 2^bit_len`, and `2^(bit_len−1) ≤ a` for `a ≠ 0`. -/
+theorem bit_len_spec (bits : ℕ) (a : List ℕ) (ha : Canon bits a) :
+    bitLen bits a = size (val a)
+    ∧ val a < 2 ^ bitLen bits a ∧ (val a ≠ 0 → 2 ^ (bitLen bits a - 1) ≤ val a) := by
+  rw [bitLen_spec bits a ha]
+  exact ⟨rfl, size_bounds (val a)⟩
+
+theorem byte_len_spec (bits : ℕ) (a : List ℕ) (ha : Canon bits a) :
+    byteLen bits a = (size (val a) + 7) / 8 := by
+  unfold byteLen; rw [bitLen_spec bits a ha]
+
+/-- `leading_ones` is the number of leading zeros of the complement `2^bits − 1 − a`. -/
+theorem leading_ones_spec (bits : ℕ) (a : List ℕ) (ha : Canon bits a) :
+    leadingOnes bits a = bits - size (2 ^ bits - 1 - val a) := by
+  unfold leadingOnes
+  obtain ⟨h1, h2⟩ := not_val bits a ha
+  rw [leadingZeros_spec bits _ h1, h2]
+
+/-- `trailing_zeros`: `bits` for zero; otherwise `2^tz` is the largest power of two dividing `a`. -/
+theorem trailing_zeros_spec (bits : ℕ) (a : List ℕ) (ha : Canon bits a) :
+    (val a = 0 → trailingZeros bits a = bits)
+    ∧ (val a ≠ 0 → 2 ^ trailingZeros bits a ∣ val a ∧ ¬ 2 ^ (trailingZeros bits a + 1) ∣ val a) := by
+  obtain ⟨h1, h2⟩ := trailingZeros_spec bits a ha
+  refine ⟨h1, fun hne => ?_⟩
+  obtain ⟨m, e, hm⟩ := h2 hne
+  refine ⟨⟨m, e⟩, ?_⟩
+  rintro ⟨q, hq⟩
+  rw [pow_succ, Nat.mul_assoc] at hq
+  have hp : 0 < 2 ^ trailingZeros bits a := by positivity
+  have : m = 2 * q := Nat.eq_of_mul_eq_mul_left hp (by rw [← e, hq])
+  omega
+
+/-- `trailing_ones`: `2^to` is the largest power of two dividing `a + 1` (all `to` low bits are set and
+    bit `to` is clear; `to = bits` exactly for `MAX`, whose successor is `2^bits`). -/
+theorem trailing_ones_spec (bits : ℕ) (a : List ℕ) (ha : Canon bits a) :
+    2 ^ trailingOnes bits a ∣ val a + 1 ∧ ¬ 2 ^ (trailingOnes bits a + 1) ∣ val a + 1 := by
+  obtain ⟨m, e, hm⟩ := trailingOnes_spec bits a ha
+  refine ⟨⟨m, e⟩, ?_⟩
+  rintro ⟨q, hq⟩
+  rw [pow_succ, Nat.mul_assoc] at hq
+  have hp : 0 < 2 ^ trailingOnes bits a := by positivity
+  have : m = 2 * q := Nat.eq_of_mul_eq_mul_left hp (by rw [← e, hq])
+  omega
+
+/-- `count_ones` is the number of set bits among the `bits` positions. -/
+theorem count_ones_spec (bits : ℕ) (a : List ℕ) (ha : Canon bits a) :
+    countOnes a = ((List.range bits).countP fun i => (val a).testBit i) :=
+  countOnes_spec bits a ha
+
+/-- `count_zeros` is the number of clear bits among the `bits` positions. -/
+theorem count_zeros_spec (bits : ℕ) (a : List ℕ) (ha : Canon bits a) :
+    countZeros bits a = ((List.range bits).countP fun i => !(val a).testBit i) := by
+  unfold countZeros
+  rw [countOnes_spec bits a ha]
+  exact bitCount_compl bits (val a)
+
+/-- `reverse_bits`: canonical, and bit `i` of the result is bit `bits−1−i` of the argument. -/
+theorem reverse_bits_spec (bits : ℕ) (a : List ℕ) (ha : Canon bits a) :
+    Canon bits (reverseBits bits a)
+    ∧ ∀ i, (val (reverseBits bits a)).testBit i
+        = (decide (i < bits) && (val a).testBit (bits - 1 - i)) :=
+  reverseBits_spec bits a ha
+
+/-- `is_power_of_two` ⇔ the value is `2^k` for some `k`. -/
+theorem is_power_of_two_spec (bits : ℕ) (a : List ℕ) (ha : Canon bits a) :
+    isPowerOfTwo a = true ↔ ∃ k, val a = 2 ^ k :=
+  isPowerOfTwo_spec a ha.2.1
+
+/-- `checked_next_power_of_two`: let `2^k` be the least power of two `≥ a` (it exists:
+    `exists_least_pow`). The result is `Some(2^k)` if `2^k < 2^bits` and `None` otherwise. -/
+theorem checked_next_power_of_two_spec (bits : ℕ) (a : List ℕ) (ha : Canon bits a) (k : ℕ)
+    (hk1 : val a ≤ 2 ^ k) (hk2 : ∀ j, val a ≤ 2 ^ j → k ≤ j) :
+    (k < bits → ∃ r, checkedNextPowerOfTwo bits a = some r ∧ Canon bits r ∧ val r = 2 ^ k)
+    ∧ (bits ≤ k → checkedNextPowerOfTwo bits a = none) :=
+  checkedNextPowerOfTwo_spec bits a ha k hk1 hk2
+
+/-- `next_power_of_two` is the same value and panics (`none`) exactly when it does not fit. -/
+theorem next_power_of_two_spec (bits : ℕ) (a : List ℕ) (ha : Canon bits a) (k : ℕ)
+    (hk1 : val a ≤ 2 ^ k) (hk2 : ∀ j, val a ≤ 2 ^ j → k ≤ j) :
+    (k < bits → ∃ r, nextPowerOfTwo bits a = some r ∧ Canon bits r ∧ val r = 2 ^ k)
+    ∧ (bits ≤ k → nextPowerOfTwo bits a = none) :=
+  checkedNextPowerOfTwo_spec bits a ha k hk1 hk2
+
+/-- the hypothesis of the two theorems above is satisfiable for every value. -/
+theorem next_power_of_two_exists (A : ℕ) : ∃ k, A ≤ 2 ^ k ∧ ∀ j, A ≤ 2 ^ j → k ≤ j :=
+  exists_least_pow A
+
+/-- `most_significant_bits = (⌊a / 2^e⌋, e)` with `e = max(bit_len − 64, 0)`: the top 64 significant
+    bits and the matching exponent; hence `bits·2^e ≤ a < (bits+1)·2^e`, `bits < 2^64`, and
+    `e = 0 ∨ 2^63 ≤ bits`. -/
+theorem most_significant_bits_spec (bits : ℕ) (a : List ℕ) (ha : Canon bits a) :
+    (mostSignificantBits a).2 = size (val a) - 64
+    ∧ (mostSignificantBits a).1 = val a / 2 ^ (mostSignificantBits a).2
+    ∧ (mostSignificantBits a).1 < 2 ^ 64
+    ∧ ((mostSignificantBits a).2 = 0 ∨ 2 ^ 63 ≤ (mostSignificantBits a).1) := by
+  obtain ⟨h1, h2⟩ := mostSignificantBits_spec a ha.2.1
+  obtain ⟨b1, b2⟩ := size_bounds (val a)
+  generalize (mostSignificantBits a).2 = e at *
+  generalize (mostSignificantBits a).1 = b at *
+  refine ⟨h1, h2, ?_, ?_⟩
+  · rw [h2]
+    apply Nat.div_lt_of_lt_mul
+    rw [← pow_add]
+    exact lt_of_lt_of_le b1 (Nat.pow_le_pow_right (by norm_num) (by omega))
+  · by_cases he : e = 0
+    · left; exact he
+    · right
+      have hne : val a ≠ 0 := by
+        intro h0; rw [h0, size_zero] at h1; omega
+      have b2 := b2 hne
+      rw [h2, Nat.le_div_iff_mul_le (by positivity), ← pow_add]
+      have : 63 + e = size (val a) - 1 := by omega
+      rw [this]; exact b2
+
+/-! Non-vacuity: concrete instances evaluated by the kernel on the model (non-aligned width 70:
+top limb zero / masked top limb). -/
+example : Canon 70 [5, 0] ∧ Canon 70 [W - 1, 63] := by
+  refine ⟨⟨rfl, ?_, ?_⟩, ⟨rfl, ?_, ?_⟩⟩ <;> simp [AllLt, W]
+example : leadingZeros 70 [5, 0] = 67 := by decide +kernel
+example : trailingOnes 70 [W - 1, 63] = 70 := by decide +kernel
+example : Bits.not 70 [5, 0] = [W - 6, 63] := by decide +kernel
+example : reverseBits 70 [5, 0] = [0, 40] := by decide +kernel
+example : checkedNextPowerOfTwo 70 [5, 0] = some [8, 0] := by decide +kernel
+example : byte 70 [5, 0] 9 = none ∧ byte 70 [5, 0] 8 = some 0 := by decide +kernel
+
 end Ruint.C06
